@@ -433,8 +433,13 @@ fn run_htlc(ctx: &Ctx, c: &HCase) -> (String, Option<(String, String)>) {
                 return ("accepted".into(), Some((key("negative-fee"), format!("{:?}", c))));
             }
             let fee = fee as u128;
-            // rates consistent with this fee under BOLT-3's fee formula, intersected with the policy range
-            let wgt = weight as u128;
+            // rates consistent with this fee under BOLT-3's fee formula, intersected with the policy
+            // range; the weight is that of the transaction kind the supplied redeemscript denotes
+            let wgt = if offered_rs {
+                lightning_signer::lightning::ln::chan_utils::htlc_timeout_tx_weight(&features) as u128
+            } else {
+                lightning_signer::lightning::ln::chan_utils::htlc_success_tx_weight(&features) as u128
+            };
             let mut candidates: Vec<u32> = vec![];
             if zero_fee {
                 if fee == 0 {
